@@ -237,7 +237,7 @@ def removal_histories(R, rng, tier):
     for si, shape in enumerate(shapes):
         names = ['a', 'b'] + [n for n, _ in shape]
         for victim in names:
-            for pre in (None, 'update_id'):
+            for pre in (None, 'update_id', 'reversed-order'):
                 d = mk_data()
                 d.remove_component(d.id['c'])
                 lv = leaves(mk_data())
@@ -247,6 +247,9 @@ def removal_histories(R, rng, tier):
                     d[n] = OPS[op](env[l], env[r])
                     env[n] = d.id[n]
                     deps[n] = {x for x in (l, r) if x in names}
+                if pre == 'reversed-order':
+                    # dependents listed before the attributes they are computed from
+                    d.reorder_components(list(d.components)[::-1])
                 values_before = {c.label: np.asarray(d[c], dtype=float).copy() for c in d.components}
                 order_before = [c.label for c in d.components]
                 if pre == 'update_id' and victim in ('a', 'b'):
@@ -375,6 +378,60 @@ def nested_parsed(R, views):
             R.fail("derived|parsed-nested|%s" % bad[0], "parsed expression %r over a parsed derived attribute: %s" % (cmd, bad[1]), None)
 
 
+def update_id_kinds(R):
+    """replacing the identifier of an attribute keeps every kind of derived attribute that reads it evaluable with the same values"""
+    from glue.core.component_id import ComponentID
+    from glue.core.component_link import ComponentLink
+    from glue.core.parse import ParsedCommand, ParsedComponentLink
+
+    def arithmetic(d):
+        d['z'] = d.id['a'] * 2 + d.id['b']
+
+    def function(d):
+        d.add_component_link(ComponentLink([d.id['a'], d.id['b']], ComponentID('z'), using=lambda a, b: a * 2 + b))
+
+    def parsed(d):
+        d.add_component_link(ParsedComponentLink(ComponentID('z'), ParsedCommand('{a} * 2 + {b}', {'a': d.id['a'], 'b': d.id['b']})))
+
+    def parsed_nested(d):
+        d.add_component_link(ParsedComponentLink(ComponentID('w'), ParsedCommand('{a} * 2', {'a': d.id['a']})))
+        d.add_component_link(ParsedComponentLink(ComponentID('z'), ParsedCommand('{w} + {b}', {'w': d.id['w'], 'b': d.id['b']})))
+
+    def arithmetic_nested(d):
+        d['w'] = d.id['a'] * 2
+        d['z'] = d.id['w'] + d.id['b']
+    for kname, mk in (('arithmetic', arithmetic), ('function', function), ('parsed', parsed), ('parsed-nested', parsed_nested), ('arithmetic-nested', arithmetic_nested)):
+        for victim in ('a', 'b'):
+            d = mk_data()
+            mk(d)
+            before = np.asarray(d[d.id['z']], dtype=float).copy()
+            d.update_id(d.id[victim], ComponentID(victim + '_renamed'))
+            R.count(('update-id-kind', kname, victim), 'update-id-histories')
+            try:
+                after = np.asarray(d[d.id['z']], dtype=float)
+                bad = None if same(after, before) else "gives other values"
+            except Exception as e:
+                bad = "raises %s: %s" % (type(e).__name__, e)
+            if bad:
+                R.fail("derived|update_id-kind|%s" % kname, "derived attribute z (%s link reading a and b): after update_id of %s reading z %s" % (kname, victim, bad),
+                       "from bounded.c14_derived import replay_update_id_kinds\nsys.exit(replay_update_id_kinds())\n")
+
+
+def replay_update_id_kinds():
+    class _R:
+        bad = 0
+
+        def count(self, *a):
+            pass
+
+        def fail(self, sig, detail, code):
+            print(sig, detail)
+            self.bad += 1
+    r = _R()
+    update_id_kinds(r)
+    return 1 if r.bad else 0
+
+
 def run(tier, seed, R):
     from bounded.views import view_catalogue
     rng = random.Random(seed)
@@ -413,4 +470,5 @@ def run(tier, seed, R):
     nested_parsed(R, views)
     shared_expressions(R)
     removal_histories(R, rng, tier)
+    update_id_kinds(R)
     R.samples.append({"expression": "('/', ('+', 'a', 'p1'), ('**', 'w0', '0.5')) on the full dataset and on each view, vs numpy"})
